@@ -152,13 +152,19 @@ func classify(e ast.Expr) string {
 			return "lambda-body-leading-paren"
 		}
 	}
-	var ks []string
+	// kinds of the children as a sorted set (one defect, one key)
+	set := map[string]bool{}
 	for _, c := range children(m) {
-		ks = append(ks, kind(c))
+		set[kind(c)] = true
 	}
+	var ks []string
+	for k := range set {
+		ks = append(ks, k)
+	}
+	sortStrings(ks)
 	k := "roundtrip:" + kind(m) + "(" + strings.Join(ks, ",") + ")"
 	if b, ok := m.(*ast.BinaryExpr); ok {
-		k += ":" + exprx.OpNames[b.Op]
+		k = "roundtrip:BinaryExpr:" + exprx.OpNames[b.Op]
 	}
 	if u, ok := m.(*ast.UnaryExpr); ok {
 		k += ":" + exprx.OpNames[u.Op]
